@@ -407,6 +407,18 @@ touched_restore(struct tab *tb, uint32_t m)
             register_untouch(&tb->t, (RegisterHandle)i);
 }
 
+/* an address as text: decimal, hexadecimal from 2^24 on (tables near the top
+ * of the address space); rotates through a few static buffers */
+static const char *
+addr_str(uint32_t a)
+{
+    static char b[8][12];
+    static int k;
+    char *o = b[k++ & 7];
+    snprintf(o, sizeof b[0], a >= 0x1000000u ? "0x%x" : "%u", a);
+    return o;
+}
+
 /* human-readable one-line rendering of a table spec */
 static const char *
 tspec_str(const struct tspec *s)
@@ -414,16 +426,16 @@ tspec_str(const struct tspec *s)
     static char buf[300];
     size_t l = (size_t)snprintf(buf, sizeof buf, "%s areas[", s->be ? "BE" : "LE");
     for (int i = 0; i < s->na && l < sizeof buf - 40; ++i)
-        l += (size_t)snprintf(buf + l, sizeof buf - l, "%s%u+%u:%s%s%s%s", i ? " " : "",
-                              s->a[i].base, s->a[i].size,
+        l += (size_t)snprintf(buf + l, sizeof buf - l, "%s%s+%u:%s%s%s%s", i ? " " : "",
+                              addr_str(s->a[i].base), s->a[i].size,
                               (s->a[i].flags & REG_AF_READABLE) ? "R" : "",
                               (s->a[i].flags & REG_AF_WRITEABLE) ? "W" : "",
                               (s->a[i].flags & REG_AF_SKIP_DEFAULTS) ? "S" : "",
                               s->a[i].cb ? (s->a[i].nowrite ? ":cb-nowr" : ":cb") : (s->a[i].nowrite ? ":nowr" : ""));
     l += (size_t)snprintf(buf + l, sizeof buf - l, "] regs[");
     for (int i = 0; i < s->nr && l < sizeof buf - 40; ++i)
-        l += (size_t)snprintf(buf + l, sizeof buf - l, "%s%s@%u:%s", i ? " " : "",
-                              TYPE_NAME[s->r[i].type], s->r[i].addr, CKIND_NAME[s->r[i].ckind]);
+        l += (size_t)snprintf(buf + l, sizeof buf - l, "%s%s@%s:%s", i ? " " : "",
+                              TYPE_NAME[s->r[i].type], addr_str(s->r[i].addr), CKIND_NAME[s->r[i].ckind]);
     snprintf(buf + l, sizeof buf - l, "]");
     return buf;
 }
@@ -441,27 +453,31 @@ flat_write_verdict(const struct tab *t, uint32_t addr, uint32_t n, const Registe
     const struct tspec *s = &t->s;
     v->unmapped = v->readonly = v->invalid = v->range = -1;
     v->overlapped = 0;
-    for (uint32_t a = addr; a < addr + n; ++a) {
+    /* exclusive ends are formed in 64 bits: an extent whose last word is
+     * 0xffffffff ends at 2^32 (the request itself never wraps: addr + n <= 2^32) */
+    const uint64_t wend = (uint64_t)addr + n;
+    for (uint64_t a64 = addr; a64 < wend; ++a64) {
+        const uint32_t a = (uint32_t)a64;
         const int ai = flat_area_of(s, a);
         if (ai < 0) {
             if (v->unmapped < 0)
-                v->unmapped = a;
+                v->unmapped = (long)a;
         } else if (!flat_writable(&s->a[ai])) {
             if (v->readonly < 0)
-                v->readonly = a;
+                v->readonly = (long)a;
         }
     }
     for (int r = 0; r < s->nr; ++r) {
         const struct rspec *rs = &s->r[r];
         const uint32_t rw = ref_words(rs->type);
-        if (n == 0 || rs->addr + rw <= addr || addr + n <= rs->addr)
+        if (n == 0 || (uint64_t)rs->addr + rw <= addr || wend <= rs->addr)
             continue;
         v->overlapped |= 1u << r;
         unsigned char img[8];
         flat_reg_image(t, r, img);
         for (uint32_t w = 0; w < rw; ++w) {
-            const uint32_t a = rs->addr + w;
-            if (a >= addr && a < addr + n)
+            const uint32_t a = rs->addr + w; /* a word of the register: <= 0xffffffff */
+            if (a >= addr && a < wend)
                 memcpy(img + 2 * w, &buf[a - addr], 2);
         }
         const uint64_t bits = ref_unimage(rs->type, img, s->be);
